@@ -824,11 +824,14 @@ class Request(interfaces.Request, BaseUnicastRequest):
                 self.observation.callback(next_event.message)
 
             if next_event.is_last:
-                self.observation.error(error.ObservationCancelled())
+                # (the callback just run may have cancelled it)
+                if not self.observation.cancelled:
+                    self.observation.error(error.ObservationCancelled())
                 return
 
             if next_event.message.opt.observe is None:
-                self.observation.error(error.ObservationCancelled())
+                if not self.observation.cancelled:
+                    self.observation.error(error.ObservationCancelled())
                 self.log.error(
                     "Pipe indicated more possible responses"
                     " while the Request handler would not know what to"
